@@ -4,6 +4,23 @@ NOTES = ("Every check re-compiles coq/theories/Properties/<id>.v (theorems over 
          "implementation. See DESIGN.md. known_findings.json lists recorded defects; replays/ is written only on failure.")
 NOT_APPLICABLE = {}
 CLAIMS = {
+    "C07": {
+        "text": "Theorems over the Fetch model for every env and canon (14, closed under the global context) on D07 (distinct dot-free entry names; nested multiples and further master "
+                "occurrences allowed; no deprecated; stable choices; $-free) under the single oracle hypothesis H_default_canonical (for each .multiple entry k, canon of k fetched against "
+                "itself = canon the master reports for k): re-fetching a result as an object is a fixed point; a master copy, the master object itself (Python's identity skip modelled), or "
+                "any master-like first source change nothing (equality of outcomes incl. errors); fetching nothing = fetching the master; any history of such cycles leaves W unchanged; "
+                "canon-free versions for masters without multiples. Refutations by witness exactly where the library fails: F7a (H_default_canonical false on nested non-canonical "
+                "defaults), F7d (single-alternative choice). PARTIAL: the re-parsed-text forms and 'defaults as first source' are decided by the stream on every run.",
+        "note": "Trusted as C04 (Fetch model, canon oracle recorded per fetch call, identity probes for nested multiples). in_domain evaluates D07 incl. H_default_canonical through the "
+                "library's own extract_format on every case.",
+    },
+    "C08": {
+        "text": "Theorems over the Fetch model (7): for ALL masters/sources/env/canon every definition of a diff has a canonical text different from its master's, no scope of a diff is "
+                "empty, nothing undeclared appears (C08_only_differences); on D08 (D07 + unique names + no .multiple scope, under H_self) the diff, the restore (kept values identical, "
+                "dropped values back as the master's own with the same canon, multiple blocks unchanged in order), diff-of-restored = diff and empty diff of defaults are characterised "
+                "block-wise. F7c refuted by witness (a further master occurrence reorders the restore). PARTIAL: .multiple scopes, text forms and non-raising of later runs by stream only.",
+        "note": "Trusted as C07.",
+    },
     "C09": {
         "text": "Theorems over the Extract model (29, closed under the global context): per converter, from_words (as_words v) = v on exact domains - str, key, path (not starting with ~, "
                 "under the expanduser hypothesis), words, strings, qstr, bool, int (py_int_of_str (str z) = z; bounds), ints, single and multi choice, None/Auto; as_words refuses "
